@@ -17,6 +17,10 @@ namespace Givaro {
     template <class Domain>
     bool Poly1Dom<Domain,Dense>::ratrecon(typename Poly1Dom<Domain,Dense>::Rep& N, typename Poly1Dom<Domain,Dense>::Rep& D, const typename Poly1Dom<Domain,Dense>::Rep& P, const typename Poly1Dom<Domain,Dense>::Rep& M, const Degree& dk) const {
 
+        if (&N == &P || &N == &M || &D == &P || &D == &M) { // an output may be the same object as P or M
+            typename Poly1Dom<Domain,Dense>::Rep Pt, Mt; this->assign(Pt, P); this->assign(Mt, M);
+            return ratrecon(N, D, Pt, Mt, dk);
+        }
         Degree degU, degV;
         this->degree(degU,P); this->degree(degV,M);
         if ((degU < dk) || (degV == 0)) { this->assign(N,P); this->assign(D,one); return true; }
